@@ -59,6 +59,13 @@ def check_point(point, bounds, tol):
     (x_lo, y_lo), (x_hi, y_hi) = bounds
     try:
         got = plot_utils.point_in_bounds(list(point), [[x_lo, y_lo], [x_hi, y_hi]], tol)
+        # the caller keeps one bounds object and edits it in place when the travel limits
+        # change: the answer must follow the object's contents at the time of the call
+        kept = [[x_lo + 4096, y_lo - 4096], [x_hi + 4096, y_hi - 4096]]
+        plot_utils.point_in_bounds(list(point), kept, tol)
+        kept[0][0], kept[0][1] = x_lo, y_lo
+        kept[1] = [x_hi, y_hi]
+        got_kept = plot_utils.point_in_bounds(list(point), kept, tol)
         _v, flag_x = plot_utils.checkLimitsTol(point[0], x_lo, x_hi, tol)
         _v, flag_y = plot_utils.checkLimitsTol(point[1], y_lo, y_hi, tol)
     except Exception as exc:                # pylint: disable=broad-except
@@ -70,6 +77,10 @@ def check_point(point, bounds, tol):
     if got is not exact:
         out.append(("point_in_bounds", f"point_in_bounds({point}, {bounds}, {tol}) = {got!r}, "
                     f"expected {exact}"))
+    if got_kept is not exact:
+        out.append(("kept_bounds", f"point_in_bounds({point}, <one bounds object, first "
+                    f"{[[x_lo + 4096, y_lo - 4096], [x_hi + 4096, y_hi - 4096]]}, then edited in "
+                    f"place to {bounds}>, {tol}) = {got_kept!r}, expected {exact}"))
     if got is not (not flag_x and not flag_y):
         out.append(("agree", f"point_in_bounds({point}, {bounds}, {tol}) = {got!r} but the "
                     f"tolerant checker flags x:{flag_x} y:{flag_y}"))
